@@ -129,6 +129,13 @@ func runCli(in cliIn) (out cliOut) {
 	out.Panic = strings.Contains(text, "panic:") || strings.Contains(text, "goroutine 1 [") || strings.Contains(text, "runtime error:") || strings.Contains(text, "fatal error:")
 	out.Reported = strings.Contains(text, "[FATAL]") || strings.Contains(text, "[ERROR]") || strings.Contains(text, "Error:")
 	lines := strings.Split(strings.TrimSpace(text), "\n")
+	// (cobra prints its usage text after an error: the message is what comes before it)
+	for i, l := range lines {
+		if strings.HasPrefix(l, "Usage:") {
+			lines = lines[:i]
+			break
+		}
+	}
 	if len(lines) > 4 {
 		lines = lines[len(lines)-4:]
 	}
@@ -204,7 +211,7 @@ func genCli(seed uint64, n int, tier string, emit func(string, []string, any)) {
 		case "dump-graph":
 			// the graph of the project as text (DOT by default, `plain` otherwise): no artifact of the generators, but a run
 			// like any other - it ends with exit 0 or with a reported error, never with a panic
-			in.Cmd = []string{"dump", "graph", "--no-banner", "-c", "./gleece.config.json", "-o", "./dist/graph.txt"}
+			in.Cmd = []string{"dump", "graph", "--no-banner", "-c", "./gleece.config.json", "-o", "./graph.txt"}
 			if cr.Bool() {
 				in.Cmd = append(in.Cmd, "-f", "plain")
 			}
